@@ -413,7 +413,7 @@ theorem lstep_renew_ok (hh : s.holder i = some prev) (hg : durationGuard ttl = s
   simp only [h0, h1, if_false, ne_eq, not_true_eq_false]
 
 /-- `RenewLockLease(key, dur)` is the ticker's `renewLeaseOnce`: the caller's duration plays no role -/
-theorem lstep_renewLock : lstep s (.renewLock i d ttl) = lstep s (.renew i ttl) := rfl
+theorem lstep_renewLock (dur : Int) : lstep s (.renewLock i dur ttl) = lstep s (.renew i ttl) := rfl
 
 theorem lstep_unlock_notHolder (hh : s.holder i = none) :
     lstep s (.unlock i) = (s, .notHolder) := by show doUnlock s i = _; unfold doUnlock; simp only [hh]
@@ -612,7 +612,7 @@ theorem stale_cannot_release (s : LockSt) (i tok : Nat) (hh : s.holder i = some 
 /-- an explicit `RenewLockLease(key, dur)` at any moment up to the expiry — whatever `dur` the caller passes —
 keeps the lock exactly like a ticker renewal: the lease is pushed to `now + ttl` (the CONFIGURED ttl), and the
 token the instance remembers afterwards IS that new lease (so its next renewal and its `Unlock` are accepted) -/
-theorem renewLock_keeps (s : LockSt) (i d dur ttl td : Nat) (hi : ValidHolds s i) (hd : s.now + d ≤ s.lease)
+theorem renewLock_keeps (s : LockSt) (i d : Nat) (dur : Int) (ttl td : Nat) (hi : ValidHolds s i) (hd : s.now + d ≤ s.lease)
     (hg : durationGuard ttl = some td) :
     let s1 := (lstep s (.tick d)).1
     let s2 := (lstep s1 (.renewLock i dur ttl)).1
@@ -641,7 +641,7 @@ theorem renewLock_keeps (s : LockSt) (i d dur ttl td : Nat) (hi : ValidHolds s i
   refine ⟨by rw [hs2, hn1], ⟨s1.now + td, hlk, hle.symm, by rw [hno]; omega⟩, by rw [hlk, hn1], by rw [hle, hn1], by rw [hno, hn1]⟩
 
 /-- … and the ticker's next renewal after an explicit one (any time `d2` up to the new expiry) is accepted -/
-theorem ticker_after_renewLock (s : LockSt) (i d dur ttl td d2 : Nat) (hi : ValidHolds s i)
+theorem ticker_after_renewLock (s : LockSt) (i d : Nat) (dur : Int) (ttl td d2 : Nat) (hi : ValidHolds s i)
     (hd : s.now + d ≤ s.lease) (hg : durationGuard ttl = some td) (hd2 : d2 ≤ td) :
     let s2 := (lstep (lstep s (.tick d)).1 (.renewLock i dur ttl)).1
     (lstep (lstep s2 (.tick d2)).1 (.renew i ttl)).2 = .renewed (s.now + d + d2 + td) ∧
@@ -801,8 +801,8 @@ example :
 -- a stale instance (2, lease taken over by 1 after expiry) renewing / unlocking is harmless for holder 1
 example :
     let s := lrun {} [.lockTry 2 (second), .tick (second), .lockTry 1 (2*second)]
-    ValidHolds s 1 ∧ KeepsAlive 1 s [.renew 2 second, .renewLock 2 0 second, .unlock 2, .tick second, .lockTry 2 second] ∧
-    ValidHolds (lrun s [.renew 2 second, .renewLock 2 0 second, .unlock 2, .tick second]) 1 := by
+    ValidHolds s 1 ∧ KeepsAlive 1 s [.renew 2 second, .renewLock 2 (-1) second, .unlock 2, .tick second, .lockTry 2 second] ∧
+    ValidHolds (lrun s [.renew 2 second, .renewLock 2 (-1) second, .unlock 2, .tick second]) 1 := by
   refine ⟨⟨3000000000, by decide, by decide, by decide⟩, by decide, ⟨3000000000, by decide, by decide, by decide⟩⟩
 example : durationGuard (2*second) = some (2*second) := by decide
 
